@@ -105,4 +105,47 @@ pub proof fn lemma_bounds_mono(n: int, bounds: Seq<int>, k: int)
 {
     if k > 0 { lemma_bounds_mono(n, bounds, k - 1); }
 }
+
+// ---- index lookup (stream_binary_search index=<n>, files not sorted by time) ----
+// std: <[T]>::binary_search_by(|m| m.index.cmp(&wanted)) and <[usize]>::binary_search: documented contracts (R11)
+pub open spec fn index_sorted(all: Seq<DltMessage>) -> bool { forall|i: int, j: int| 0 <= i < j < all.len() ==> (#[trigger] all[i]).index < (#[trigger] all[j]).index }
+pub open spec fn ascending(v: Seq<usize>) -> bool { forall|i: int, j: int| 0 <= i < j < v.len() ==> #[trigger] v[i] < #[trigger] v[j] }
+#[verifier::external_body]
+pub fn vx_bsearch_msg_index(all: &Vec<DltMessage>, wanted: DltMessageIndexType) -> (r: Result<usize, usize>)
+    ensures
+        r is Ok ==> r->Ok_0 < all@.len() && all@[r->Ok_0 as int].index == wanted,
+        index_sorted(all@) && r is Err ==> forall|i: int| 0 <= i < all@.len() ==> (#[trigger] all@[i]).index != wanted,
+{ all.binary_search_by(|m| m.index.cmp(&wanted)) }
+#[verifier::external_body]
+pub fn vx_bsearch_usize(v: &Vec<usize>, x: usize) -> (r: Result<usize, usize>)
+    ensures
+        ascending(v@) && r is Ok ==> r->Ok_0 < v@.len() && v@[r->Ok_0 as int] == x,
+        ascending(v@) && r is Err ==> r->Err_0 <= v@.len() && (forall|j: int| 0 <= j < r->Err_0 ==> #[trigger] v@[j] < x) && (forall|j: int| r->Err_0 <= j < v@.len() ==> #[trigger] v@[j] > x),
+{ v.binary_search(&x) }
+// Result::unwrap_or_else(|e| e) on a Result<usize, usize>
+pub fn vx_ok_or_err(r: Result<usize, usize>) -> (x: usize)
+    ensures x == (match r { Ok(a) => a, Err(e) => e }),
+{ match r { Ok(a) => a, Err(e) => e } }
+
+// the stream position of the first stream message that is not before position `a` of all messages
+pub open spec fn is_first_not_before(stream: &StreamContext, a: int, p: int) -> bool {
+    if stream.filters_active {
+        0 <= p <= stream.filtered_msgs@.len()
+        && (forall|j: int| 0 <= j < p ==> (#[trigger] stream.filtered_msgs@[j]) < a)
+        && (forall|j: int| p <= j < stream.filtered_msgs@.len() ==> (#[trigger] stream.filtered_msgs@[j]) >= a)
+    } else { p == a }
+}
+//@ extract src/bin/adlt/remote.rs region `let all_msgs_idx = fc .all_msgs .binary_search_by(|m| m.index` .. `if let Ok(all_msgs_idx) = all_msgs_idx` in fn binary_search_by_msg_index
+//@   sig pub fn lookup_by_index(wanted_msg_idx: DltMessageIndexType, all_msgs: &Vec<DltMessage>, stream: &StreamContext) -> (r: Result<usize, String>)
+//@   sub R11 `fc .all_msgs .binary_search_by(|m| m.index.cmp(&wanted_msg_idx))` => `vx_bsearch_msg_index(all_msgs, wanted_msg_idx)`
+//@   sub R11 `stream .filtered_msgs .binary_search(&all_msgs_idx) .unwrap_or_else(|e| e)` => `vx_ok_or_err(vx_bsearch_usize(&stream.filtered_msgs, all_msgs_idx))`
+//@   spec
+//@|    requires
+//@|        index_sorted(all_msgs@), // files not sorted by time: all_msgs is in index order
+//@|        stream.filters_active ==> ascending(stream.filtered_msgs@), // the index invariant of unit streamidx
+//@|    ensures
+//@|        // found: the answer is the stream position of the first stream message at or after the message with that index
+//@|        r is Ok ==> exists|a: int| 0 <= a < all_msgs@.len() && (#[trigger] all_msgs@[a]).index == wanted_msg_idx && is_first_not_before(stream, a, r->Ok_0 as int), // O:lookup.index
+//@|        r is Err ==> forall|i: int| 0 <= i < all_msgs@.len() ==> (#[trigger] all_msgs@[i]).index != wanted_msg_idx, // O:lookup.index_unknown
+//@ end
 // ---- end of units/streamsearch/part.rs ----
